@@ -269,9 +269,8 @@ void gen_c20(Plan &p, Rng &r, bool thorough) {
     }
     if (!outflag.empty() && outarg != "/dev/stdout" && r.chance(1, 10)) {
       // a long output name (beyond any line-sized scratch array in the tool); -o appends ".bin" to it
-      std::string nm = "/sim/";
-      long L = r.chance(1, 2) ? r.range(88, 104) : r.range(105, 600);
-      while ((long)nm.size() < L) nm.push_back("output_name_"[nm.size() % 12]);
+      long L = r.chance(1, 2) ? r.range(88, 104) : r.chance(3, 4) ? r.range(105, 600) : r.range(601, 4080);
+      std::string nm = long_path(p.world, L, "output_name_");
       outarg = (outflag == "-o" || outflag == "--object") ? nm : nm + ".bin";
     }
     // invalid argument cases
